@@ -533,6 +533,9 @@ impl Prop for C06 {
     fn cases(&self, tier: Tier) -> u32 {
         tier.pick(450, 30_000)
     }
+    fn max_threads(&self) -> usize {
+        6
+    }
     fn fixed_cases(&self) -> Vec<Case> {
         // every delimiter offset, for the hello and for a reply, two messages in one unit, on
         // every transport
